@@ -165,8 +165,10 @@ def r05_2(ctx):
                     objs.append(AObj("Effect", {}, label=name, opaque=True))
                 elif kind == "0":
                     objs.append(AObj("Empty", {}, label=name, opaque=True))
-                else:
+                elif kind == "P":
                     objs.append(AObj("Pure", {}, label=name, opaque=True))
+                else:
+                    objs.append(AObj(kind, {}, label=name, opaque=True))
             s = interp.construct("Sequence", ["n", objs], {})
             box["s"] = s
             return s
@@ -185,6 +187,15 @@ def r05_2(ctx):
         effs = box["s"].fields.get("effects")
         got = [lab(x) for x in effs] if isinstance(effs, list) else lab(effs)
         ctx.check(f"Sequence({[n for _, n in lst]}).effects", got == exp and len(outs) == 1, str(exp), str(got), fn_where(idx, fi))
+    # membership does not depend on what kind of effect it is: one instance per effect class of the IR
+    eff_classes = sorted(c for c in idx.subclasses("Effect", strict=True) if c != "Empty")
+    ctx.need(len(eff_classes) >= 8, f"effect classes of the IR: only {len(eff_classes)} found")
+    for cname in eff_classes:
+        for lst, exp in (([("E", "e1"), (cname, "x"), ("E", "e2")], ["e1", "x", "e2"]), ([(cname, "x"), (cname, "y")], ["x", "y"])):
+            outs, box = build(lst)
+            effs = box["s"].fields.get("effects")
+            got = [lab(x) for x in effs] if isinstance(effs, list) else lab(effs)
+            ctx.check(f"Sequence keeps a {cname} member {[n for _, n in lst]}", got == exp and len(outs) == 1, str(exp), str(got), fn_where(idx, fi))
     outs, box = build([("0", "z"), ("0", "z2")])
     effs = box["s"].fields.get("effects")
     ctx.check("Sequence of only Empty -> one Empty", isinstance(effs, list) and len(effs) == 1 and isinstance(effs[0], AObj) and effs[0].cls == "Empty", "[Empty]", str([lab(x) for x in effs] if isinstance(effs, list) else effs), fn_where(idx, fi))
@@ -355,3 +366,17 @@ def r05_7(ctx):
     from .c14 import r14_1
 
     r14_1(ctx)
+
+
+@rule("R05.8", "C05", "nested if: an else belongs to the nearest if that has none (grammar alternative order decides the ambiguity)", min_instances=2)
+def r05_8(ctx):
+    from .c17 import dangling_else_checks
+
+    dangling_else_checks(ctx)
+
+
+@rule("R05.9", "C05", "statements inside a statement-expression arm of ?: take effect only under the arm's condition", min_instances=4)
+def r05_9(ctx):
+    from .c06 import ternary_guard_checks
+
+    ternary_guard_checks(ctx)
